@@ -35,8 +35,8 @@ func (c *Ctx) c04Program(s *Sub, sub, src string, ntHint bool, labels ...string)
 
 // c04ReturnSkeleton: a function whose body is a random nest with returns at
 // chosen depths and statements after them.
-func c04ReturnSkeleton(pick func(string, int) int, budget, depth int) (string, bool) {
-	g := &c05Gen{budget: budget, retOK: true, pick: pick}
+func c04ReturnSkeleton(pick func(string, int) int, budget, depth int, wide bool) (string, bool) {
+	g := &c05Gen{budget: budget, retOK: true, pick: pick, fnDecls: wide}
 	g.b.WriteString(c05Prelude)
 	g.b.WriteString(bn.KwFun + " fn() {\n")
 	n := 1 + pick("nbody", 3)
@@ -45,6 +45,10 @@ func c04ReturnSkeleton(pick func(string, int) int, budget, depth int) (string, b
 	}
 	g.b.WriteString("}\n")
 	g.b.WriteString(bn.KwPrint + " fn();\n" + bn.KwPrint + " \"between\";\n" + bn.KwPrint + " fn();\n" + bn.KwPrint + " \"end\";\n")
+	if wide {
+		// the call's value where only its truth matters, and compared with nil
+		g.b.WriteString(bn.KwIf + " (fn()) " + bn.KwPrint + " \"truthy\"; " + bn.KwElse + " " + bn.KwPrint + " \"falsy\";\n" + bn.KwPrint + " !fn();\n" + bn.KwPrint + " fn() == nil;\n" + bn.KwPrint + " [fn() " + bn.KwOr + " \"was-falsy\"];\n")
+	}
 	return g.b.String(), g.deepRet
 }
 
@@ -206,7 +210,7 @@ func TestC04(t *testing.T) {
 			var deep bool
 			var total int64
 			complete := walkDecisions(maxLeaves, func(pick func(string, int) int) {
-				src, deep = c04ReturnSkeleton(pick, maxC, 3)
+				src, deep = c04ReturnSkeleton(pick, maxC, 3, false)
 			}, func(k int64) {
 				total = k
 				if c.Mine(k) {
@@ -226,7 +230,7 @@ func TestC04(t *testing.T) {
 		}
 		c.Rapid("rand-return-skeletons", n, func(rt *rapid.T, s *Sub) {
 			src, deep := c04ReturnSkeleton(func(label string, n int) int { return rapid.IntRange(0, n-1).Draw(rt, label) },
-				rapid.IntRange(3, 20).Draw(rt, "budget"), rapid.IntRange(1, 4).Draw(rt, "depth"))
+				rapid.IntRange(3, 20).Draw(rt, "budget"), rapid.IntRange(1, 4).Draw(rt, "depth"), true)
 			c.c04Program(s, "rand-return-skeletons", src, deep, "return-skeleton")
 		})
 
@@ -276,7 +280,7 @@ func TestC04(t *testing.T) {
 			var b strings.Builder
 			b.WriteString(V + " g = 0;\n" + V + " arr = [1, 2];\n" + V + " obj = {p: 1};\n" + F + " seven() { " + R + " 7; }\n" + F + " same(v) { " + R + " v; }\n")
 			lasts := []string{"g = g + 1;", "7;", "\"s\";", "seven();", "seven;", "obj.p = 5;", "arr[0] = 6;", "[1, 2];", "({k: 1});", "g == g;", bn.KwTrue + ";",
-				V + " loc = 9;", "same(same);", "g = seven();", "-g;", "nil;", P + " \"shown\";", F + " inner() { " + R + " 3; }", bn.BLen + "(arr);", "g = [g];"}
+				V + " loc = 9;", "same(same);", "g = seven();", "-g;", "nil;", R + ";", P + " \"shown\";", F + " inner() { " + R + " 3; }", bn.BLen + "(arr);", "g = [g];"}
 			var nest func(ind string, d int) string
 			nest = func(ind string, d int) string {
 				last := ind + rapid.SampledFrom(lasts).Draw(rt, "last") + "\n"
